@@ -296,6 +296,20 @@ func RunProbes(a, b *abci.Chain, f Features, heightShifted bool) []Probe {
 		e := c.EndBlock()
 		return fmt.Sprintf("panic=%q updates=%d", e.Panic, len(e.Updates))
 	})
+	// the first block after the restart: what the allocation read and left behind
+	both("query:distributor-after-first-block", func(c *abci.Chain) string {
+		dk := c.App.DistrKeeper
+		var perf []string
+		for _, v := range c.Validators {
+			perf = append(perf, fmt.Sprint(len(dk.GetValidatorVotes(ctxOf(c), v.ConsAddr))))
+		}
+		tre := dk.GetFeesTreasury(ctxOf(c)).String()
+		if heightShifted {
+			tre = "n/a" // the reward cut depends on the number of votes inside the height window
+			perf = nil
+		}
+		return fmt.Sprintf("treasury=%s votes=%s", tre, strings.Join(perf, ","))
+	})
 	// voting and enactment periods pass
 	for i, dt := range []int64{700, 5, 700, 5} {
 		both(fmt.Sprintf("block+%d:dt=%d", i+2, dt), func(c *abci.Chain) string {
